@@ -116,6 +116,11 @@ pub fn huge_payloads() -> Vec<Vec<u8>> {
     for n in [65535usize, 65536, 65537, 70001] {
         v.push((0..n).map(|i| (i % 251) as u8).collect());
     }
+    // every length near 2^16 (frame lengths crossing 65536 in all alignments)
+    for n in 65500usize..=65545 {
+        v.push((0..n).map(|i| (i % 249) as u8 + 2).collect());
+    }
+    v.push((0..131060usize).map(|i| (i % 249) as u8 + 2).collect());
     v.push(vec![0x1b; 65537]);
     v.push(vec![0x00; 65540]);
     v
@@ -941,4 +946,114 @@ pub fn mutated_file(rng: &mut Rng, f: &GFile, fix_crc: bool) -> Vec<u8> {
         _ => {}
     }
     out
+}
+
+/// type-length fields whose own encoding is very long (leading zero-nibble continuation bytes):
+/// counters of the field size cross 2^8 and 2^16.  Returns (tlf bytes for an octet string of
+/// `datalen` bytes) with `pad` extra leading `80` bytes.
+pub fn long_octet_tlf(pad: usize, datalen: usize) -> Vec<u8> {
+    // pad bytes 0x80 (type octet string, continuation, nibble 0), then 6 nibble bytes holding the value
+    let size = pad + 6;
+    let v = (size + datalen) as u64;
+    let mut out = vec![0x80u8; pad];
+    for i in 0..6 {
+        let nib = ((v >> (4 * (5 - i))) & 0xF) as u8;
+        out.push(if i < 5 { 0x80 } else { 0 } | nib);
+    }
+    out
+}
+
+/// a close-response message whose transaction id uses such a field; returns (bytes, transaction id)
+pub fn long_tlf_message(pad: usize, valid: bool) -> (Vec<u8>, Vec<u8>) {
+    let tid = vec![0xab, 0xcd];
+    let mut head = vec![0x76];
+    let mut t = long_octet_tlf(pad, tid.len());
+    if !valid {
+        // under-declare: the value is smaller than the field's own size
+        let n = t.len();
+        t[n - 1] = 0x01;
+        for b in t[n - 6..n - 1].iter_mut() {
+            *b = 0x80;
+        }
+    }
+    head.extend(t);
+    head.extend_from_slice(&tid);
+    head.extend_from_slice(&[0x62, 0x07, 0x62, 0x09, 0x72, 0x63, 0x02, 0x01, 0x71, 0x01]);
+    let c = crc16_x25(&head);
+    let mut out = head;
+    out.extend_from_slice(&[0x63, c as u8, (c >> 8) as u8, 0x00]);
+    (out, tid)
+}
+
+pub const LONG_FIELD_PADS: [usize; 9] = [249, 250, 251, 65529, 65530, 65531, 65535, 65536, 70000];
+
+/// counters of "how many" cross 2^8 and 2^16: entries per list, messages per file, bytes per string
+pub const BIG_COUNTS: [usize; 6] = [255, 256, 257, 65535, 65536, 65537];
+
+/// a get-list response with `n` minimal entries (distinct object names), canonical encoding
+pub fn big_list_file(n: usize) -> (Vec<u8>, GFile) {
+    let entries: Vec<GEntry> = (0..n)
+        .map(|i| GEntry {
+            obj_name: vec![(i >> 16) as u8, (i >> 8) as u8, i as u8],
+            status: None,
+            val_time: None,
+            unit: None,
+            scaler: None,
+            value: GValue::Uns(1, (i % 251) as u64),
+            sig: None,
+        })
+        .collect();
+    let f = GFile {
+        msgs: vec![GMsg {
+            tid: vec![1],
+            group: 0,
+            abort: 0,
+            body: GBody::GetList { client_id: None, server_id: vec![2], list_name: None, act_sensor_time: None, entries, list_sig: None, act_gateway_time: None },
+        }],
+    };
+    let mut rng = Rng::new(1);
+    let x = encode_file(&mut rng, &f, true);
+    (x, f)
+}
+
+/// a file of `n` close responses
+pub fn many_messages_file(n: usize) -> (Vec<u8>, GFile) {
+    let f = GFile {
+        msgs: (0..n).map(|i| GMsg { tid: vec![(i >> 8) as u8, i as u8], group: (i % 256) as u8, abort: 0, body: GBody::Close { sig: None } }).collect(),
+    };
+    let mut rng = Rng::new(1);
+    let x = encode_file(&mut rng, &f, true);
+    (x, f)
+}
+
+/// a close response whose signature is an octet string of `n` bytes
+pub fn long_string_file(n: usize) -> (Vec<u8>, GFile) {
+    let f = GFile {
+        msgs: vec![GMsg { tid: vec![9], group: 1, abort: 2, body: GBody::Close { sig: Some((0..n).map(|i| (i % 253) as u8).collect()) } }],
+    };
+    let mut rng = Rng::new(1);
+    let x = encode_file(&mut rng, &f, true);
+    (x, f)
+}
+
+/// a get-list response declaring `declared` entries but carrying `actual` (checksum correct)
+pub fn list_arity_file(declared: usize, actual: usize) -> Vec<u8> {
+    let (x, _) = big_list_file(actual);
+    // re-encode the head with a different declared count: locate the list TLF by re-building the message
+    let mut head: Vec<u8> = vec![0x76, 0x02, 0x01, 0x62, 0x00, 0x62, 0x00, 0x72, 0x63, 0x07, 0x01, 0x77, 0x01, 0x02, 0x02, 0x01, 0x01];
+    let mut k = 1;
+    while (declared as u64) >= 1u64 << (4 * k) {
+        k += 1;
+    }
+    Enc::tlf_raw(7, declared as u64, k, &mut head);
+    let mut e = Enc { rng: &mut Rng::new(1), plain: true };
+    for i in 0..actual {
+        let ent = GEntry { obj_name: vec![(i >> 16) as u8, (i >> 8) as u8, i as u8], status: None, val_time: None, unit: None, scaler: None, value: GValue::Uns(1, (i % 251) as u64), sig: None };
+        e.entry(&ent, &mut head);
+    }
+    head.extend_from_slice(&[0x01, 0x01]);
+    let t = e.msg_tail(&head);
+    head.extend(t);
+    let _ = x;
+    head
 }
